@@ -108,6 +108,9 @@ where
     T: PurlShape + FromStr + Clone + PartialEq + std::fmt::Debug + Hash + Ord,
     <T as PurlShape>::Error: From<<T as FromStr>::Err> + std::fmt::Debug,
 {
+    // another value goes through the library first: nothing it leaves behind (caches, scratch buffers) may show in what follows
+    let _ = GenericPurl::<String>::from_str("pkg:zzz/flush?k=v#s").map(|p| p.to_string());
+    let _ = purl::Purl::from_str("pkg:cargo/flush").map(|p| p.to_string());
     let inp = || json!({"string": input, "instantiation": inst});
     let text = match guarded(|| p.to_string()) {
         Ok(t) => t,
